@@ -645,6 +645,10 @@ func (s *FakeServer) applyRule(p *plan, r SrvRule, st *fakeConnState, req *base.
 			p.hdr["Location"] = []string{"http://" + s.Addr() + "/x"}
 		case "creds":
 			p.hdr["Location"] = []string{"rtsp://other:secret@" + s.Addr() + "/x"}
+		default:
+			if strings.HasPrefix(r.S, "rtsp") {
+				p.hdr["Location"] = []string{r.S} // a literal target
+			}
 		}
 	case "cseq":
 		switch r.S {
